@@ -46,6 +46,12 @@ YFsL == {YF(g, arg) : g \in 2..3, arg \in {[k |-> "lit", v |-> 1], VarA}}
 AIndep == [simple |-> {PullIt, YFromIt, [k |-> "mk2"], Y(VarA), YF(2, [k |-> "lit", v |-> 1])},
            inits |-> {None}, posts |-> {None}, conds |-> {T0}, ifinits |-> {None},
            kinds |-> {"if"}, jumps |-> {}, ranges |-> {}]
+\* a pull loop `for it.MoveNext() { .. }` over an iterator variable that holds NO iterator (C18: the nil dereference
+\* belongs to the step that evaluates the condition; a loop value built earlier must not evaluate `it.MoveNext`)
+ItN == [k |-> "itn"]
+ANilIt == [simple |-> {Eff, Y(Lit0), Y(VarA)},
+           inits |-> {None}, posts |-> {None, IncA}, conds |-> {T0, ItN}, ifinits |-> {None},
+           kinds |-> {"if", "ifelse", "switch", "block", "for"}, jumps |-> {"break", "return"}, ranges |-> {}]
 AYfL == [AYf EXCEPT !.simple = {Eff, IncA, Y(VarA)} \cup YFsL, !.posts = {None} \cup YFsL]
 \* transformer generators (C06): a generator that ranges over the local iterator `it` (instance 2) and yields
 \* from inside the loop, also inside a switch clause, with break / continue / return and pulls by hand
@@ -151,7 +157,7 @@ ARScope == [ARange EXCEPT !.simple = {Y(VarK), Y(VarV)},
                           !.ranges = {RangeHdr("slice", "var", f[1], f[2]) :
                                         f \in {<<"asg", "asg">>, <<"blank", "asg">>, <<"asg", "none">>, <<"def", "def">>, <<"blank", "def">>}}]
 ARangeX == [ARange EXCEPT !.simple = @ \cup {Mut("nset", 0), Mut("strset", 0), Mut("sset", 0), Mut("aset", 0)}]
-A == CASE Family = "range" -> ARange [] Family = "rscope" -> ARScope [] Family = "rangex" -> ARangeX [] Family = "ctl" -> ACtl [] Family = "scope" -> AScope [] Family = "yf" -> AYf [] Family = "xf" -> AXf [] Family = "indep" -> AIndep [] Family = "gg" -> AGG [] Family = "yfl" -> AYfL [] Family = "panic" -> APanic [] Family = "ctlx" -> ACtlX [] Family = "eff" -> AEff [] Family = "expr" -> AExpr [] Family = "jump" -> AJump [] Family = "opt" -> AOpt [] Family = "by" -> ABy [] Family = "optx" -> AOptX [] Family = "byx" -> AByX [] Family = "unsup" -> AUnsup [] Family = "box" -> ABox [] Family = "lit" -> ALit
+A == CASE Family = "range" -> ARange [] Family = "rscope" -> ARScope [] Family = "rangex" -> ARangeX [] Family = "ctl" -> ACtl [] Family = "scope" -> AScope [] Family = "yf" -> AYf [] Family = "xf" -> AXf [] Family = "indep" -> AIndep [] Family = "gg" -> AGG [] Family = "yfl" -> AYfL [] Family = "panic" -> APanic [] Family = "nilit" -> ANilIt [] Family = "ctlx" -> ACtlX [] Family = "eff" -> AEff [] Family = "expr" -> AExpr [] Family = "jump" -> AJump [] Family = "opt" -> AOpt [] Family = "by" -> ABy [] Family = "optx" -> AOptX [] Family = "byx" -> AByX [] Family = "unsup" -> AUnsup [] Family = "box" -> ABox [] Family = "lit" -> ALit
 
 \* Go scoping: `a := ...` at most once per block and never in the function's top block
 \* (a is a parameter there: "no new variables on left side of :=")
@@ -168,6 +174,13 @@ HasKS(s, kk) == s.k = kk \/ CASE s.k = "if" -> HasK(s.a, kk) \/ HasK(s.b, kk)
                               [] s.k \in {"block", "for", "range"} -> HasK(s.body, kk)
                               [] OTHER -> FALSE
 HasK(b, kk) == \E j \in 1..Len(b) : HasKS(b[j], kk)
+RECURSIVE HasItn(_)
+HasItnS(s) == CASE s.k = "if" -> HasItn(s.a) \/ HasItn(s.b)
+                [] s.k = "switch" -> \E j \in 1..Len(s.cases) : HasItn(s.cases[j].body)
+                [] s.k = "block" -> HasItn(s.body)
+                [] s.k = "for" -> (~IsNone(s.c) /\ s.c.k = "itn") \/ HasItn(s.body)
+                [] OTHER -> FALSE
+HasItn(b) == \E j \in 1..Len(b) : HasItnS(b[j])
 RECURSIVE HasBoom(_), HasBoomS(_)
 HasBoomS(s) == (s.k = "yield" /\ s.v.k = "b1")
                \/ CASE s.k = "if" -> HasBoom(s.a) \/ HasBoom(s.b)
@@ -178,7 +191,7 @@ HasBoomS(s) == (s.k = "yield" /\ s.v.k = "b1")
 HasBoom(b) == \E j \in 1..Len(b) : HasBoomS(b[j])
 \* a function without a Yield is not a generator for the tool (it would run eagerly: C13's business)
 IsRangeFam == Family \in {"range", "rangex", "rscope"}
-Member(p) == /\ (IF Family \in {"by", "byx"} THEN ~HasY(p) /\ HasK(p, "effx") ELSE HasY(p)) /\ (Family = "scope" => ScopeOK(p, 0)) /\ (Family = "panic" => (HasK(p, "panic") \/ HasBoom(p)))
+Member(p) == /\ (IF Family \in {"by", "byx"} THEN ~HasY(p) /\ HasK(p, "effx") ELSE HasY(p)) /\ (Family = "scope" => ScopeOK(p, 0)) /\ (Family = "panic" => (HasK(p, "panic") \/ HasBoom(p))) /\ (Family = "nilit" => HasItn(p))
              /\ (IsRangeFam \/ Family = "xf" => HasK(p, "range"))
              /\ (Family = "unsup" => CountU(p) = 1)
 \* range family: every program ends with an observation of the function-level kk, vv and a final yield
@@ -213,7 +226,7 @@ VARIABLES prog, tape0, plen, w, wb, calls, obs, obsB
 vars == <<prog, tape0, plen, w, wb, calls, obs, obsB>>
 
 Start(p, tape, flags) ==
-  LET w1 == Spawn(MW0(<<p, D2, D3, D4>>, tape, Budget, flags), 1, 0, 2).w IN
+  LET w1 == Spawn(MW0(<<p, D2, D3, D4>>, tape, Budget, flags \cup (IF Family = "nilit" THEN {"nilit"} ELSE {})), 1, 0, 2).w IN
   IF Family \in {"yf", "xf", "indep"} THEN Spawn(w1, 2, 3, 2).w ELSE w1      \* yf: instance 2 is the local iterator  it := D2(r, 3, b)
 Init == /\ \/ \E raw \in Small : \E fin \in Finish(raw) : prog = Label(fin)
            \/ (Lazy /\ \E raw \in {0} : FALSE)   \* (keeps TLC's Init shape uniform)
